@@ -183,8 +183,15 @@ inductive Container
 
 inductive Header
   | absent
-  | present (v2 : Bool) (c : Container)   -- `sigTst2` (true, preferred) or `sigTst`
+  | present (v2 : Bool) (c : Container)   -- `sigTst2` (true) or `sigTst`
   deriving DecidableEq, Repr
+
+/-- `get_cose_tst_info` (sigtst.rs): `find_map` over the unprotected header entries — the **first**
+entry, in header order, that is labelled `sigTst2` or `sigTst` is the one that is used; `sigTst2` is
+not preferred over an earlier `sigTst`. The argument lists those entries in header order. -/
+def headerOf : List (Bool × Container) → Header
+  | [] => .absent
+  | (v2, c) :: _ => .present v2 c
 
 /-- The bytes a header time-stamp must cover. -/
 def headerMsg (v2 : Bool) : Msg := ⟨true, if v2 then .sigCbor else .payload⟩
@@ -204,6 +211,31 @@ def validateCoseTst (h : Header) (vt : Bool) : Option Int × List Entry :=
         let o := verifyTimeStamp t (headerMsg v2) vt
         ((match o.result with | .ok x => some x | .error _ => none), o.log)
       | _ => (none, [])
+
+/-! ### time-stamp assertions (store.rs `get_store_validation_info`) -/
+
+/-- The tokens of time-stamp assertions that reference this claim, in the order the store meets
+them (hash-map order), each checked with
+`verify_time_stamp(token, &sign1.signature, …, rc.version() != 1)`: among the accepted tokens the
+**earliest** time is kept in `svi.timestamps` (`candidate < current` replaces the entry), so the
+result does not depend on the order. `vt` is `true` for every claim that is not a v1 claim —
+whatever `verify_timestamp_trust` says. -/
+def extTime : List Token → Bool → Option Int
+  | [], _ => none
+  | tok :: rest, vt =>
+    match (verifyTimeStamp tok assertionMsg vt).result, extTime rest vt with
+    | .ok t, some u => some (if u < t then u else t)
+    | .ok t, none => some t
+    | .error _, r => r
+
+/-- What that pass appends to the validation log: the entries of every *rejected* token
+(`Err(_) => validation_log.append(&tmp_log)`); an accepted token logs nothing there. -/
+def extLog : List Token → Bool → List Entry
+  | [], _ => []
+  | tok :: rest, vt =>
+    (match (verifyTimeStamp tok assertionMsg vt).result with
+      | .ok _ => []
+      | .error _ => (verifyTimeStamp tok assertionMsg vt).log) ++ extLog rest vt
 
 /-! ### Claim level -/
 
@@ -318,14 +350,17 @@ def parseToken (s : String) : Token :=
     let body := (s.drop 2).toString
     .parsed ((splitList body "|").filterMap parseSInfo)
 
-/-- `-` | `<1|2>:X` | `<1|2>:T:<tok>;<tok>…` -/
+/-- one header entry: `<1|2>:X` | `<1|2>:T:<tok>;<tok>…` -/
+def parseHeaderEntry (s : String) : Bool × Container :=
+  let v2 := s.startsWith "2"
+  let rest := (s.drop 2).toString
+  if rest == "X" then (v2, .unparsable)
+  else (v2, .toks ((splitList (rest.drop 2).toString ";").map parseToken))
+
+/-- `-` | `<entry>` | `<entry>&<entry>…` (entries in unprotected-header order) -/
 def parseHeader (s : String) : Header :=
   if s == "-" then .absent
-  else
-    let v2 := s.startsWith "2"
-    let rest := (s.drop 2).toString
-    if rest == "X" then .present v2 .unparsable
-    else .present v2 (.toks ((splitList (rest.drop 2).toString ";").map parseToken))
+  else headerOf ((s.splitOn "&").map parseHeaderEntry)
 
 def kindStr : Kind → String
   | .success => "s" | .informational => "i" | .failure => "f"
@@ -361,7 +396,7 @@ def handle (toks : List String) : String :=
       | .ok t => "ok " ++ toString t
       | .error e => "err:" ++ errStr e) ++ " log=" ++ logStr o.log
   | op :: rest =>
-    if op != "e2e" && op != "vc" then "bad-op" else
+    if op != "e2e" && op != "vc" && op != "ta" then "bad-op" else
     let h := parseHeader (field rest "hdr")
     let sg : Signing :=
       match (field rest "sf").toList.map parseBool with
@@ -376,6 +411,16 @@ def handle (toks : List String) : String :=
     if op == "vc" then
       (if sg.sigOk then "ok used=" ++ optStr (usedTime ext h cfg).1 else "err used=-")
         ++ " " ++ classesStr (coseLog ext h sg cfg)
+    else if op == "ta" then
+      -- an ingredient claim validated at `now0` without a time-stamp assertion (what the ingredient
+      -- assertion recorded) and at `now` with the tokens `xt` of time-stamp assertions: the entries
+      -- the store pass logs, and the entries that are new with respect to the recorded ones
+      let xs := field rest "xt"
+      let toks := if xs == "-" || xs == "" then [] else (xs.splitOn ";").map parseToken
+      let xvt := field rest "xvt" == "1"
+      let l0 := claimLog none h sg { cfg with now := parseInt (field rest "now0") }
+      let l1 := claimLog (extTime toks xvt) h sg cfg
+      "store " ++ classesStr (extLog toks xvt) ++ " delta " ++ classesStr (l1.filter fun e => !l0.contains e)
     else
       let xf := field rest "xf"
       let extra := if xf == "-" || xf == "" then [] else (xf.splitOn ",").map String.toList
